@@ -56,6 +56,8 @@ def check_acquire_inside(ctx, repo, wname, acquire_stub, release_stub, collectio
     # inner: acquire first (inside the protected region, so a partial acquire is undone), then the wrapped plan, whose value is returned
     iy = yfs(inner_f.node)
     acq_f = local(repo, f, callee_name(iy[0]) or "") if iy else None
+    if acq_f is None and iy and callee_name(iy[0]) == acquire_stub:
+        acq_f = inner_f  # the acquire stub is yielded from directly, without a local helper generator around it
     ok = len(iy) == 2 and acq_f is not None and A.norm(iy[1]) == "plan"
     ctx.ob(rule, cname(inner_f, None, "acquire (inside the protected plan), then the wrapped plan"), ok,
            "" if ok else f"inner plan yields from {[A.norm(x) for x in iy]}", nontrivial=True, where=where(inner_f, inner_f.node))
@@ -155,7 +157,9 @@ def run(ctx):
     ok = None not in (i_open, i_cw) and i_open < i_cw and not between
     ctx.ob("C23.D1-release-is-final-plan", cname(f, None, "open_run directly followed by the contingency_wrapper that closes the run"), ok,
            "" if ok else "something can fail between open_run and the protected region", nontrivial=True, where=where(f, f.node))
-    n_close = sum(1 for fn in (f, local(repo, f, "except_plan")) if fn is not None for c in A.calls_in(fn.node) if A.call_name(c) == "close_run")
+    cw_calls = [c for c in A.calls_in(f.node) if A.call_name(c) == "contingency_wrapper"]
+    ep_name = A.norm(A.kw(cw_calls[0], "except_plan")) if cw_calls and A.kw(cw_calls[0], "except_plan") is not None else "except_plan"
+    n_close = sum(1 for fn in (f, local(repo, f, ep_name)) if fn is not None for c in A.calls_in(fn.node) if A.call_name(c) == "close_run")
     ok = n_close == 2 and "else_plan=close_run" in A.norm(f.node)
     ctx.ob("C23.D1-release-is-final-plan", cname(f, None, "one close_run per outcome (except: 2 branches, else: close_run)"), ok, "" if ok else f"{n_close} close_run calls", where=where(f, f.node))
     rets = [s for s in seq if isinstance(s, ast.Return)]
@@ -185,11 +189,23 @@ def run(ctx):
             isinstance(x, ast.Return) and A.norm(x.value) == "(new_gen(), None)" for x in s.body) for s in bc.node.body)
         ctx.ob("C23.D3-inserted-around-run", cname(f, None, "before close_run: head = release messages then the message"), ok, "" if ok else "release not inserted before close_run", where=where(f, f.node))
         ng = local(repo, f, "insert_before_close.new_gen")
-        ok = ng is not None and [A.norm(x) for x in yfs(ng.node)] == before_seq and any(
+        def flat(e):
+            # ensure_generator(a + b) yields a's messages, then b's: the same sequence as two yield-froms
+            if isinstance(e, ast.Call) and A.call_name(e) == "ensure_generator" and len(e.args) == 1:
+                parts, stack = [], [q.expand(f.node, e.args[0])]
+                while stack:
+                    x = stack.pop(0)
+                    if isinstance(x, ast.BinOp) and isinstance(x.op, ast.Add):
+                        stack = [x.left, x.right] + stack
+                    else:
+                        parts.append(f"ensure_generator({A.norm(x)})")
+                return parts
+            return [A.norm(e)]
+        ok = ng is not None and [t for x in yfs(ng.node) for t in flat(x)] == before_seq and any(
             isinstance(n, ast.Yield) and A.norm(n.value) == "msg" for n in A.walk_local(ng.node.body[-1]))
         ctx.ob("C23.D3-inserted-around-run", cname(f, None, "release messages precede close_run, which comes last"), ok, "" if ok else "order changed", where=where(f, f.node))
-        txt = A.norm(f.node)
-        ok = "plan1 = plan_mutator(plan, insert_after_open)" in txt and "plan2 = plan_mutator(plan1, insert_before_close)" in txt and "yield from plan2" in txt
+        outs = [q.expand(f.node, n.value) for st in f.node.body for n in A.walk_local(st) if isinstance(n, ast.YieldFrom) and not isinstance(st, (ast.FunctionDef,))]
+        ok = any(A.norm(o) == "plan_mutator(plan_mutator(plan, insert_after_open), insert_before_close)" for o in outs)
         ctx.ob("C23.D3-inserted-around-run", cname(f, None, "both mutators applied"), ok, "" if ok else "only one insertion is applied", where=where(f, f.node))
     f = repo.func(PP, "monitor_during_wrapper")
     txt = A.norm(f.node)
